@@ -697,6 +697,12 @@ func modeRoute(c *Ctx) {
 				p := c.Base + concrete(segs, map[int]string{vi: lx.Text})
 				serve(op.Method, p, true, true, false)
 			}
+			if kind == "string" && vi == len(segs)-1 && !strings.Contains(specName, "/") && specName != "" {
+				// a variable value spelled like the spec file, spec handler installed:
+				// only the spec route itself bypasses the operations
+				serve(op.Method, c.Base+concrete(segs, map[int]string{vi: specName}), true, true, true)
+				c.Stat("requests_ending_in_the_spec_name", 1)
+			}
 		}
 	}
 }
